@@ -342,7 +342,7 @@ inline void manyOpen(Ctx& c, long j)
 }
 
 // deterministic: hundreds of megabytes of SUPERSEDED reassemblies on one decoder: two endpoints keep starting 60 000-byte messages
-// that a new first segment replaces before they complete (150 MB quick, 600 MB thorough); every 400th message is completed
+// that a new first segment replaces before they complete (300 MB quick, 1.2 GB thorough); every 400th message is completed
 // instead and must leave nothing behind. Byte budgets that are charged when a message starts and not refunded when it is
 // superseded run dry here.
 inline void supersededBytes(Ctx& c)
@@ -350,7 +350,7 @@ inline void supersededBytes(Ctx& c)
     Rng r = c.fixedRng(4, 33);
     Monitor m{c};
     Ep a{0x0201, 1, 100}, b{0x0201, 2, 65000};
-    const size_t rounds = c.thorough() ? 10000 : 2500;
+    const size_t rounds = c.thorough() ? 20000 : 5000;
     for (size_t i = 0; i < rounds; ++i)
     {
         Ep& e = (i % 2) ? a : b;
